@@ -1046,6 +1046,116 @@ namespace
                 });
         }
     }
+    //=== C13: the new-handler protocol of new_allocator under concurrent failures ===//
+    // new_allocator is stateless, so no mutex is ever taken for it, wrapped or not; its failure path consults the program's
+    // new-handler. Threads issue requests that ::operator new cannot serve (half the address space) next to ordinary ones; a
+    // monitor thread watches the installed new-handler. Observed: every failed request gave the handler a chance on the requesting
+    // thread, ended as out_of_memory, and the program's handler is installed at every observation and at the end.
+    thread_local long    tl_handler_calls = 0;
+    std::atomic<long>    g_oom_reports{0};
+    void counting_new_handler()
+    {
+        ++tl_handler_calls;
+        throw std::bad_alloc();
+    }
+    template <class Alloc>
+    void newhandler_kind(const args& a, const char* name)
+    {
+        std::string kind = std::string("new-handler/") + name;
+        if (a.kind != "all" && a.kind != kind)
+            return;
+        for (long c = a.from; c < a.to; ++c)
+            run_case(kind, c, [&] {
+                auto r        = case_rng(a.seed, a.group, kind, c);
+                int  nthreads = int(r.range(2, 8));
+                int  ops      = a.ops;
+                op("%d threads x %d requests, about a third of them impossible to serve", nthreads, ops);
+                auto old_handler = std::set_new_handler(&counting_new_handler);
+                auto old_oom     = out_of_memory::set_handler([](const allocator_info&, std::size_t) { g_oom_reports.fetch_add(1, std::memory_order_relaxed); });
+                std::atomic<bool> stop{false};
+                std::atomic<long> replaced{0}, observations{0}, not_consulted{0}, not_signalled{0}, failed{0}, served{0}, corrupt{0};
+                std::thread       monitor([&] {
+                    while (!stop.load(std::memory_order_acquire))
+                    {
+                        if (std::get_new_handler() != &counting_new_handler)
+                            replaced.fetch_add(1, std::memory_order_relaxed);
+                        observations.fetch_add(1, std::memory_order_relaxed);
+                    }
+                });
+                std::vector<std::thread> th;
+                std::vector<std::uint64_t> seeds;
+                for (int t = 0; t < nthreads; ++t)
+                    seeds.push_back(r.next());
+                for (int t = 0; t < nthreads; ++t)
+                    th.emplace_back([&, t] {
+                        rng   tr(seeds[std::size_t(t)]);
+                        Alloc alloc;
+                        using traits = allocator_traits<Alloc>;
+                        for (int i = 0; i < ops; ++i)
+                        {
+                            if (tr.chance(35))
+                            {
+                                auto before = tl_handler_calls;
+                                bool oom    = false;
+                                try
+                                {
+                                    auto big = traits::max_node_size(alloc) / 2 - tr.below(4096);
+                                    void* p  = traits::allocate_node(alloc, big, 8);
+                                    traits::deallocate_node(alloc, p, big, 8); // not expected to get here
+                                }
+                                catch (out_of_memory&)
+                                {
+                                    oom = true;
+                                }
+                                catch (std::bad_alloc&)
+                                {
+                                }
+                                failed.fetch_add(1, std::memory_order_relaxed);
+                                if (!oom)
+                                    not_signalled.fetch_add(1, std::memory_order_relaxed);
+                                if (tl_handler_calls == before)
+                                    not_consulted.fetch_add(1, std::memory_order_relaxed);
+                                if (std::get_new_handler() != &counting_new_handler)
+                                    replaced.fetch_add(1, std::memory_order_relaxed);
+                            }
+                            else
+                            {
+                                std::size_t n = tr.range(1, 300);
+                                auto        p = static_cast<unsigned char*>(traits::allocate_node(alloc, n, 8));
+                                std::memset(p, t + 1, n);
+                                if (p[0] != (unsigned char)(t + 1) || p[n - 1] != (unsigned char)(t + 1))
+                                    corrupt.fetch_add(1, std::memory_order_relaxed);
+                                traits::deallocate_node(alloc, p, n, 8);
+                                served.fetch_add(1, std::memory_order_relaxed);
+                            }
+                        }
+                    });
+                for (auto& t : th)
+                    t.join();
+                stop.store(true, std::memory_order_release);
+                monitor.join();
+                auto final_handler = std::get_new_handler();
+                std::set_new_handler(old_handler);
+                out_of_memory::set_handler(old_oom);
+                count("failed_requests", failed.load());
+                count("served_requests", served.load());
+                count("handler_observations", observations.load());
+                if (final_handler != &counting_new_handler)
+                    viol("C13", "C13/" + kind + "/new-handler-lost", "after %ld concurrently failing requests the program's new-handler is no longer installed",
+                         failed.load());
+                if (replaced.load())
+                    viol("C13", "C13/" + kind + "/new-handler-replaced", "the program's new-handler was found replaced %ld times while threads were using the allocator",
+                         replaced.load());
+                if (not_consulted.load())
+                    viol("C13", "C13/" + kind + "/new-handler-not-consulted", "%ld of %ld failed requests ended without the installed new-handler being called on the requesting thread",
+                         not_consulted.load(), failed.load());
+                if (not_signalled.load())
+                    viol("C13", "C13/" + kind + "/failure-not-out-of-memory", "%ld of %ld failed requests did not end in out_of_memory", not_signalled.load(), failed.load());
+                if (corrupt.load())
+                    viol("C13", "C13/" + kind + "/pattern-corrupted", "memory from a stateless allocator used concurrently was overwritten while live");
+                flag("threads");
+            });
+    }
 } // namespace
 
 int main(int argc, char** argv)
@@ -1064,6 +1174,11 @@ int main(int argc, char** argv)
         free_group(a);
     else if (a.group == "exit")
         exit_group(a);
+    else if (a.group == "newhandler")
+    {
+        newhandler_kind<new_allocator>(a, "new_allocator");
+        newhandler_kind<thread_safe_allocator<new_allocator>>(a, "thread_safe<new_allocator>");
+    }
     else if (a.group == "statelessexit")
     {
         stateless_exit_kind<heap_allocator>(a, "heap_allocator");
